@@ -450,7 +450,15 @@ class PDFPageInterpreter:
     def init_state(self, ctm: Matrix) -> None:
         """Initialize the text and graphic states for rendering a page."""
         # gstack: stack for graphical states.
-        self.gstack: List[Tuple[Matrix, PDFTextState, PDFGraphicState]] = []
+        self.gstack: List[
+            Tuple[
+                Matrix,
+                PDFTextState,
+                PDFGraphicState,
+                Optional[PDFColorSpace],
+                Optional[PDFColorSpace],
+            ]
+        ] = []
         self.ctm = ctm
         self.device.set_ctm(self.ctm)
         self.textstate = PDFTextState()
@@ -476,14 +484,35 @@ class PDFPageInterpreter:
         self.argstack = self.argstack[:-n]
         return x
 
-    def get_current_state(self) -> Tuple[Matrix, PDFTextState, PDFGraphicState]:
-        return (self.ctm, self.textstate.copy(), self.graphicstate.copy())
+    def get_current_state(
+        self,
+    ) -> Tuple[
+        Matrix,
+        PDFTextState,
+        PDFGraphicState,
+        Optional[PDFColorSpace],
+        Optional[PDFColorSpace],
+    ]:
+        # the current colour spaces are part of the graphics state (q/Q)
+        return (
+            self.ctm,
+            self.textstate.copy(),
+            self.graphicstate.copy(),
+            self.scs,
+            self.ncs,
+        )
 
     def set_current_state(
         self,
-        state: Tuple[Matrix, PDFTextState, PDFGraphicState],
+        state: Tuple[
+            Matrix,
+            PDFTextState,
+            PDFGraphicState,
+            Optional[PDFColorSpace],
+            Optional[PDFColorSpace],
+        ],
     ) -> None:
-        (self.ctm, self.textstate, self.graphicstate) = state
+        (self.ctm, self.textstate, self.graphicstate, self.scs, self.ncs) = state
         self.device.set_ctm(self.ctm)
 
     def do_q(self) -> None:
